@@ -9,6 +9,7 @@
    - classes have no bases, so all_members = members and inherited_members = {}. *)
 From Coq Require Import List ZArith String Ascii Bool Arith.
 From Verif Require Import Lib.Sexp.
+From Verif Require Import Gen.C16_shape.
 Import ListNotations.
 Open Scope string_scope.
 Open Scope list_scope.
@@ -250,20 +251,59 @@ Definition write_member (s : state) (c : recv) (k : name) (v : nat) : res state 
 
 Inductive api := Producer | Consumer.      (* set_member / del_member  vs  __setitem__ / __delitem__ *)
 
-(* the part of set_member that runs when the name is already bound to a non-alias member *)
-Definition replace_prelude (s : state) (m v : nat) : state * option err :=
+(* the part of set_member that runs when the name is already bound: the stub-merge probe (it can raise), then which
+   aliases are to be re-targeted *)
+Definition replace_probe (s : state) (m v : nat) : option err :=
   match getn s m, getn s v with
   | Some mn, Some vn =>
-    if is_ali (nkind mn) then (s, None)
+    if is_ali (nkind mn) then None
     else if Nat.eqb m v then
       (* re-assigning the object that already is the member under that key: the loop then iterates over the very
          dictionary it writes to (RuntimeError when a stale key makes it grow); cut *)
-      (s, Some EScope)
+      Some EScope
     else if is_mod (nkind mn) && is_ali (nkind vn) then
       (* value.is_module on an alias: final_target -> value.path / value.target *)
-      (s, Some (match nparent vn with None => EMissing | Some _ => EScope end))
-    else retarget_all s (map snd (naliases mn)) v
-  | _, _ => (s, Some EBad)
+      Some (match nparent vn with None => EMissing | Some _ => EScope end)
+    else None
+  | _, _ => Some EBad
+  end.
+
+(* member.aliases.values() of a non-alias member *)
+Definition repl_aliases (s : state) (m : nat) : list nat :=
+  match getn s m with
+  | Some mn => if is_ali (nkind mn) then [] else map snd (naliases mn)
+  | None => []
+  end.
+
+(* Everything from here to the end of the section depends on ONE fact about the code that the translator reads from
+   the source (Gen.C16_shape.attach_before_retarget): in set_member, is the new member stored and attached BEFORE the
+   aliases of the replaced member are re-targeted (ab = true) or after (ab = false)?  The proofs hold for both. *)
+Section Flag.
+Variable ab : bool.
+
+(* set_member on the container that holds the key *)
+Definition set_at (s : state) (a : api) (c : recv) (k : name) (ms : list (name * nat)) (v : nat) : state * option err :=
+  match a, mlookup k ms with
+  | Producer, Some m =>
+    match replace_probe s m v with
+    | Some e => (s, Some e)
+    | None =>
+      if ab then
+        match kind_of s v, repl_aliases s m with
+        | Some KAli, _ :: _ => (s, Some EScope)      (* the aliases of m would point at the alias v: a chain; cut before anything is written *)
+        | _, _ =>
+          match write_member s c k v with
+          | Err e => (s, Some e)
+          | Ok s1 => retarget_all s1 (repl_aliases s1 m) v
+          end
+        end
+      else
+        match retarget_all s (repl_aliases s m) v with
+        | (s1, Some e) => (s1, Some e)
+        | (s1, None) => match write_member s1 c k v with Ok s2 => (s2, None) | Err e => (s1, Some e) end
+        end
+    end
+  | _, _ => match write_member s c k v with Ok s2 => (s2, None) | Err e => (s, Some e) end
   end.
 
 Definition set_value (s : state) (a : api) (r : recv) (p : path) (v : nat) : state * option err :=
@@ -275,16 +315,7 @@ Definition set_value (s : state) (a : api) (r : recv) (p : path) (v : nat) : sta
     | Ok (c, k) =>
       match members_r s c with
       | Err e => (s, Some e)
-      | Ok ms =>
-        let '(s1, e1) :=
-          match a, mlookup k ms with
-          | Producer, Some m => replace_prelude s m v
-          | _, _ => (s, None)
-          end in
-        match e1 with
-        | Some e => (s1, Some e)
-        | None => match write_member s1 c k v with Ok s2 => (s2, None) | Err e => (s1, Some e) end
-        end
+      | Ok ms => set_at s a c k ms v
       end
     end
   end.
@@ -388,7 +419,10 @@ Definition step (s : state) (o : op) : state * option err :=
 Definition run (s : state) (ops : list op) : state := fold_left (fun st o => fst (step st o)) ops s.
 
 (* ---- the discipline the invariants need:
-   (1) objects enter the tree fresh and under their own name (ONew, never OAlloc / OSet);
+   (1) objects enter the tree fresh and under their own name (ONew, never OAlloc), or they are aliases that are
+       inserted AGAIN after they were deleted or replaced (OSet), under their own name, provided nothing of them is left
+       behind: no container lists them, no aliases dictionary mentions them (their back-reference was overwritten, or
+       they were never resolved);
    (2) the collection holds no alias directly;
    (3) every object an operation is applied to (receiver, alias operand) is in the tree at that moment,
        i.e. it is what the collection returns for the object's own path. *)
@@ -401,10 +435,28 @@ Definition live (s : state) (i : nat) : bool :=
 Definition recv_live (s : state) (r : recv) : bool :=
   match r with RRoot => true | RObj i => live s i end.
 
+Definition mentions (v : nat) (ms : list (name * nat)) : bool := existsb (fun kx => Nat.eqb (snd kx) v) ms.
+Definition opt_is (v : nat) (o : option nat) : bool := match o with Some x => Nat.eqb x v | None => false end.
+
+(* v is referred to by nothing: not a member of the collection or of any object (attached or not), not a value of any
+   aliases dictionary, nobody's parent, nobody's target *)
+Definition loose (s : state) (v : nat) : bool :=
+  negb (mentions v (root s)) &&
+  forallb (fun n => negb (mentions v (nmembers n)) && negb (existsb (fun pa => Nat.eqb (snd pa) v) (naliases n)) &&
+                    negb (opt_is v (nparent n)) && negb (opt_is v (ntarget n))) (heap s).
+
+Definition reattach_ok (s : state) (r : recv) (p : path) (v : nat) : bool :=
+  match getn s v, r, p with
+  | None, _, _ => false
+  | _, RRoot, [_] => false
+  | Some vn, _, _ => is_ali (nkind vn) && (match nmembers vn with [] => true | _ :: _ => false end) && loose s v &&
+                     String.eqb (last p "") (nname vn) && recv_live s r
+  end.
+
 Definition top_down (s : state) (o : op) : bool :=
   match o with
   | OAlloc _ _ _ => false
-  | OSet _ _ _ _ => false
+  | OSet _ r p v => reattach_ok s r p v
   | ONew _ RRoot [_] KAli _ => false
   | ONew _ r _ _ _ => recv_live s r
   | ODel _ r _ => recv_live s r
@@ -419,8 +471,11 @@ Fixpoint all_top_down (s : state) (ops : list op) : bool :=
   end.
 
 (* KnownGap_1: somewhere the history leaves the discipline (builds a subtree away from the tree and attaches it
-   afterwards, or operates on an object that is no longer in the tree) *)
+   afterwards, re-inserts an object of which something is left behind, or operates on an object that is no longer in
+   the tree) *)
 Definition known_gap (ops : list op) : bool := negb (all_top_down init ops).
+
+End Flag.
 
 (* ---- _get_parts on a dotted string *)
 Definition dot : ascii := "."%char.
@@ -534,7 +589,7 @@ Definition enc_state (s : state) : sexp :=
 Fixpoint trace (s : state) (ops : list op) : list sexp :=
   match ops with
   | [] => []
-  | o :: r => let '(s', e) := step s o in
+  | o :: r => let '(s', e) := step attach_before_retarget s o in
               SList [enc_err e; of_bool (top_down s o); enc_state s'] :: trace s' r
   end.
 
@@ -542,7 +597,7 @@ Fixpoint trace (s : state) (ops : list op) : list sexp :=
 Fixpoint outcomes (s : state) (ops : list op) : list sexp * state :=
   match ops with
   | [] => ([], s)
-  | o :: r => let '(s', e) := step s o in
+  | o :: r => let '(s', e) := step attach_before_retarget s o in
               let '(l, sf) := outcomes s' r in (enc_err e :: l, sf)
   end.
 
@@ -560,7 +615,7 @@ Definition run_C16 (s : sexp) : sexp :=
   | SList [SStr "final"; ops] =>
       match as_list_of dec_op ops with
       | Some l => let '(es, sf) := outcomes init l in
-                  SList [SList es; enc_state sf; of_bool (known_gap l)]
+                  SList [SList es; enc_state sf; of_bool (known_gap attach_before_retarget l)]
       | None => bad_input end
   | SList [SStr "parts"; k] =>
       match dec_key k with
